@@ -13,6 +13,9 @@ package main
 // Tautschnig partial-order encoding, DESIGN section 4 and appendix A).
 
 import (
+	"strconv"
+	"sync/atomic"
+	"sync"
 	"os"
 	"fmt"
 	"go/types"
@@ -109,6 +112,7 @@ type ConcState struct {
 	snapIdx      map[*Object]int
 	incomplete   bool
 	readCache    map[string]Value
+	refMu        sync.Mutex
 }
 
 type heapSnap struct {
@@ -238,7 +242,8 @@ func (ex *Exec) runParallel() {
 	}
 	c.initVals = map[string]Value{}
 	nUser := len(c.threads) - 1
-	for pass := 0; pass < 6; pass++ {
+	stableIncomplete := 0
+	for pass := 0; pass < maxFixPasses; pass++ {
 		c.newWrite = map[string]map[int]bool{}
 		c.newCands = map[string][]refCand{}
 		c.threads = c.threads[:nUser+1]
@@ -276,8 +281,26 @@ func (ex *Exec) runParallel() {
 			ex.exploreThread(t)
 			merge()
 		}
-		if c.incomplete {
+		if c.incomplete && !changed {
+			// the writer / candidate sets are stable, yet some paths still end at a read of a foreign
+			// object's field that no thread ever writes: with stable sets another pass cannot make
+			// them feasible, they are dropped (counted: stated bound, never a source of alarms)
+			stableIncomplete++
+			ex.sess.res.PassBoundHit++
+		} else if c.incomplete {
 			changed = true
+		}
+		if os.Getenv("VERIF_DEBUG_FIX") != "" {
+			nc := 0
+			for _, cs := range c.cands {
+				nc += len(cs)
+			}
+			logf("    fix-point pass %d: changed=%v incomplete=%v locs-written=%d cands=%d\n", pass, changed, c.incomplete, len(c.writers), nc)
+			for loc, cs := range c.newCands {
+				for _, nc := range cs {
+					logf("      newcand %s <- %s\n", loc, nc.Key)
+				}
+			}
 		}
 		if !changed {
 			break
@@ -288,8 +311,8 @@ func (ex *Exec) runParallel() {
 			ex.sess.res.PassBoundHit++
 			break
 		}
-		if pass == 5 {
-			panic(unsupported("shared-location fix point did not converge in 6 passes"))
+		if pass == maxFixPasses-1 {
+			panic(unsupported("shared-location fix point did not converge"))
 		}
 	}
 	ex.restoreSnap(c.snap)
@@ -324,7 +347,10 @@ func (ex *Exec) exploreThread(t int) {
 	for len(pending) > 0 {
 		prefix := pending[len(pending)-1]
 		pending = pending[:len(pending)-1]
-		limit := 400
+		limit := 4000
+		if v, err := strconv.Atoi(ex.h.Opts["threadpaths"]); err == nil && v > 0 {
+			limit = v
+		}
 		ex.steps = 0
 		if ex.h.Opts["race"] == "1" {
 			explored++
@@ -652,6 +678,8 @@ func (ex *Exec) refKey(v Value) string {
 
 func (ex *Exec) refID(rc refCand) int {
 	c := ex.conc
+	c.refMu.Lock()
+	defer c.refMu.Unlock()
 	if id, ok := c.refIDs[rc.Key]; ok {
 		return id
 	}
@@ -1289,17 +1317,14 @@ func (ex *Exec) composeAndCheck() {
 	final.Classes = append([]classPred{}, ex.classes...)
 	finalPC := ex.sess.pcSince(0)
 	nThreads := len(c.threads) - 1
-	// enumerate combinations; child threads only exist if their parent path spawned them
-	var combos [][]*ThreadPath
-	var rec func(t int, acc []*ThreadPath)
-	rec = func(t int, acc []*ThreadPath) {
-		if t > nThreads {
-			combos = append(combos, append([]*ThreadPath{}, acc...))
-			return
-		}
+	if ex.h.Opts["race"] == "1" {
+		ex.raceBySites(final, finalPC)
+		return
+	}
+	// options of thread t given the chosen prefix: nil if its parent path did not spawn it
+	options := func(t int, acc []*ThreadPath) []*ThreadPath {
 		spec := c.threads[t]
 		if spec.Parent != 0 {
-			// is it spawned by the chosen parent path?
 			pp := acc[spec.Parent-1]
 			spawned := false
 			if pp != nil {
@@ -1310,43 +1335,71 @@ func (ex *Exec) composeAndCheck() {
 				}
 			}
 			if !spawned {
-				rec(t+1, append(acc, nil))
-				return
+				return []*ThreadPath{nil}
 			}
 		}
-		for _, p := range spec.Paths {
-			rec(t+1, append(acc, p))
+		return spec.Paths
+	}
+	// size of the full product (upper bound): decides whether prefixes are pruned with the solver
+	product := 1
+	for t := 1; t <= nThreads; t++ {
+		if n := len(c.threads[t].Paths); n > 1 && product < 1<<30 {
+			product *= n
 		}
 	}
-	if ex.h.Opts["race"] == "1" {
-		ex.raceBySites(final, finalPC)
-		return
+	prefixPrune := product > 2000 && ex.h.Opts["prune"] != "off" && os.Getenv("VERIF_NO_PREFIX_PRUNE") == ""
+	// breadth-first enumeration, thread by thread; with prefixPrune every prefix of >= 2 threads is
+	// first checked against the RELAXED event-order query (checkCombo partial mode): an unsat prefix
+	// has no consistent extension and is dropped with all its extensions
+	prefixes := [][]*ThreadPath{{}}
+	for t := 1; t <= nThreads; t++ {
+		var next [][]*ThreadPath
+		for _, acc := range prefixes {
+			for _, p := range options(t, acc) {
+				next = append(next, append(append([]*ThreadPath{}, acc...), p))
+			}
+		}
+		if prefixPrune && t >= 2 && t < nThreads && len(next) > 1 {
+			unchosen := map[int]bool{}
+			for u := t + 1; u <= nThreads+1; u++ { // nThreads+1: the final phase
+				unchosen[u] = true
+			}
+			keep := make([]bool, len(next))
+			ex.parallelCombos(len(next), res, func(i int, sv *Solver, part *HarnessResult) {
+				nonNil := 0
+				for _, p := range next[i] {
+					if p != nil && len(p.Events) > 0 {
+						nonNil++
+					}
+				}
+				if nonNil < 2 {
+					keep[i] = true
+					return
+				}
+				keep[i] = ex.checkCombo(next[i], nil, nil, sv, part, i, unchosen)
+				if !keep[i] {
+					part.PrunedPrefixes++
+				}
+			})
+			kept := next[:0]
+			for i, acc := range next {
+				if keep[i] {
+					kept = append(kept, acc)
+				}
+			}
+			next = kept
+		}
+		prefixes = next
+		if len(prefixes) > 50*ex.h.MaxPaths {
+			res.Inconclusive = append(res.Inconclusive, fmt.Sprintf("%s: %d thread-path prefixes at thread %d exceed the budget", ex.h.Name, len(prefixes), t))
+			return
+		}
 	}
-	rec(1, nil)
+	combos := prefixes
 	if ex.h.Opts["prune"] != "off" {
 		kept := combos[:0]
 		for _, combo := range combos {
 			if ex.staticallyInfeasible(combo) {
-				if os.Getenv("VERIF_DEBUG_PRUNE") != "" {
-					var tr []string
-					for _, p := range combo {
-						if p != nil {
-							tr = append(tr, fmt.Sprint(p.Trace)+p.End)
-						}
-					}
-					logf("    pruned combo %v\n", tr)
-					if os.Getenv("VERIF_DEBUG_PRUNE") == "2" {
-						for _, p := range combo {
-							if p != nil {
-								for _, e := range p.Events {
-									if e.HasRef {
-										logf("       t%d %s %s ref=%d @%s\n", e.Thread, e.Kind, e.Loc, e.RefID, e.Pos)
-									}
-								}
-							}
-						}
-					}
-				}
 				res.PrunedCombos++
 				continue
 			}
@@ -1374,9 +1427,77 @@ func (ex *Exec) composeAndCheck() {
 		res.Inconclusive = append(res.Inconclusive, fmt.Sprintf("%s: %d thread-path combinations exceed the budget %d", ex.h.Name, len(combos), ex.h.MaxPaths))
 		return
 	}
-	for _, combo := range combos {
-		res.ConcCombos++
-		ex.checkCombo(combo, final, finalPC)
+	res.ConcCombos += len(combos)
+	ex.parallelCombos(len(combos), res, func(i int, sv *Solver, part *HarnessResult) {
+		ex.checkCombo(combos[i], final, finalPC, sv, part, i, nil)
+	})
+}
+
+// parallelCombos runs fn(i) for i in [0,n): independent solver queries spread over the free solver
+// slots (this path keeps its own solver and result; extra workers start one solver process each and
+// collect into a partial result that is merged at the end).
+func (ex *Exec) parallelCombos(n int, res *HarnessResult, fn func(i int, sv *Solver, part *HarnessResult)) {
+	nw := 1
+	if n >= 64 {
+		nw = cap(pathSlots)
+		if nw > n/32 {
+			nw = n / 32
+		}
+		if nw < 1 {
+			nw = 1
+		}
+	}
+	if nw == 1 {
+		for i := 0; i < n; i++ {
+			fn(i, ex.sess.solver, res)
+		}
+		return
+	}
+	var next int64 = -1
+	done := make(chan struct{})
+	var wg sync.WaitGroup
+	parts := make([]*HarnessResult, nw)
+	work := func(w int, sv *Solver, part *HarnessResult) {
+		defer func() {
+			if r := recover(); r != nil {
+				part.Errors = append(part.Errors, fmt.Sprintf("%s: engine panic in a combination worker: %v", ex.h.Name, r))
+			}
+		}()
+		for {
+			i := int(atomic.AddInt64(&next, 1))
+			if i >= n {
+				return
+			}
+			fn(i, sv, part)
+		}
+	}
+	for w := 1; w < nw; w++ {
+		wg.Add(1)
+		go func(w int) {
+			defer wg.Done()
+			select {
+			case pathSlots <- struct{}{}:
+			case <-done:
+				return
+			}
+			defer func() { <-pathSlots }()
+			sv, err := StartSolverTO(ex.sess.solver.kind, ex.h.FeasTO)
+			if err != nil {
+				return
+			}
+			defer sv.Close()
+			part := &HarnessResult{H: ex.h, Obls: map[string]*OblStat{}, Reaches: map[string]int{}, Funcs: map[string]bool{}, Stubs: map[string]bool{}, UnwindFail: map[string]bool{}}
+			parts[w] = part
+			work(w, sv, part)
+		}(w)
+	}
+	work(0, ex.sess.solver, res)
+	close(done)
+	wg.Wait()
+	for _, p := range parts {
+		if p != nil {
+			res.merge(p)
+		}
 	}
 }
 
@@ -1425,7 +1546,10 @@ func (ex *Exec) staticallyInfeasible(combo []*ThreadPath) bool {
 					continue
 				}
 				if init, ok := c.initVals[e.Loc]; ok {
-					if id, ok2 := c.refIDs[ex.refKey(init)]; ok2 && id == e.RefID {
+					c.refMu.Lock()
+					id, ok2 := c.refIDs[ex.refKey(init)]
+					c.refMu.Unlock()
+					if ok2 && id == e.RefID {
 						continue
 					}
 				}
@@ -1482,15 +1606,29 @@ type lockSection struct {
 	read      bool
 }
 
-func (ex *Exec) checkCombo(combo []*ThreadPath, final *ThreadPath, finalPC []*Term) {
+// checkCombo poses the event-order query of one combination of thread paths.  With partial != nil
+// (the set of thread indices not chosen yet; final == nil) only a RELAXATION of the query is built -
+// every constraint that could be satisfied by an event of a thread not chosen yet is dropped - and
+// only its satisfiability is decided: unsat means no extension of this prefix has a consistent
+// schedule (used to prune the enumeration; returns false in that case).
+func (ex *Exec) checkCombo(combo []*ThreadPath, final *ThreadPath, finalPC []*Term, solver *Solver, res *HarnessResult, comboNo int, partial map[int]bool) bool {
 	c := ex.conc
-	res := ex.sess.res
+	stat := func(id, kind string) *OblStat {
+		st, ok := res.Obls[id]
+		if !ok {
+			st = &OblStat{ID: id, Kind: kind, Pos: map[string]bool{}}
+			res.Obls[id] = st
+		}
+		return st
+	}
 	r := NewRenderer(ex.h.Mode)
 	var sb strings.Builder
 	sb.WriteString(r.Prelude())
 	var events []*Event
 	paths := append([]*ThreadPath{}, combo...)
-	paths = append(paths, final)
+	if final != nil {
+		paths = append(paths, final)
+	}
 	for _, p := range paths {
 		if p != nil {
 			events = append(events, p.Events...)
@@ -1515,8 +1653,12 @@ func (ex *Exec) checkCombo(combo []*ThreadPath, final *ThreadPath, finalPC []*Te
 		}
 		assertf("(distinct %s)", strings.Join(names, " "))
 	}
+	clkMax := len(events)
+	if partial != nil {
+		clkMax = 3*len(events) + 3*len(partial) + 10 // room for the events of the threads not chosen yet (ghost instants lie between)
+	}
 	for _, e := range events {
-		assertf("(and (<= 1 %s) (<= %s %d))", ex.clk(e), ex.clk(e), len(events))
+		assertf("(and (<= 1 %s) (<= %s %d))", ex.clk(e), ex.clk(e), clkMax)
 	}
 	// program order, spawn order, join order
 	for _, p := range paths {
@@ -1541,7 +1683,7 @@ func (ex *Exec) checkCombo(combo []*ThreadPath, final *ThreadPath, finalPC []*Te
 			}
 		}
 		// the final (quiescent) phase follows everything
-		if len(final.Events) > 0 && len(p.Events) > 0 {
+		if final != nil && len(final.Events) > 0 && len(p.Events) > 0 {
 			assertf("%s", lt(p.Events[len(p.Events)-1], final.Events[0]))
 		}
 	}
@@ -1593,6 +1735,77 @@ func (ex *Exec) checkCombo(combo []*ThreadPath, final *ThreadPath, finalPC []*Te
 			}
 		}
 	}
+	// partial mode: a ghost "begin" instant gb<u> for every thread u not chosen yet.  Whatever u does
+	// happens after gb<u>; gb<u> follows the go statement of a chosen parent (or the parent's ghost)
+	// and, for SpawnAfter threads, the first blocking event of every chosen listed thread (the ghost
+	// of a listed thread that is not chosen yet).  A constraint that an event of u could satisfy is
+	// relaxed to "gb<u> precedes the event" instead of being dropped.
+	nUser := len(c.threads) - 1
+	var ghosts []int
+	if partial != nil {
+		for u := 1; u <= nUser; u++ {
+			if partial[u] {
+				ghosts = append(ghosts, u)
+				fmt.Fprintf(&sb, "(declare-const gb%d Int)\n", u)
+			}
+		}
+		for _, u := range ghosts {
+			spec := c.threads[u]
+			if spec.Parent != 0 {
+				if partial[spec.Parent] {
+					assertf("(< gb%d gb%d)", spec.Parent, u)
+				} else if pp := combo[spec.Parent-1]; pp != nil {
+					for _, e := range pp.Events {
+						if e.Kind == "go" && e.Aux == fmt.Sprint(u) {
+							assertf("(< %s gb%d)", ex.clk(e), u)
+						}
+					}
+				}
+			}
+			for _, an := range spec.After {
+				for v := 1; v <= nUser; v++ {
+					anc, isDesc := v, false
+					for anc != 0 {
+						if c.threads[anc].Name == an {
+							isDesc = true
+							break
+						}
+						anc = c.threads[anc].Parent
+					}
+					if !isDesc {
+						continue
+					}
+					if partial[v] {
+						if v != u {
+							assertf("(< gb%d gb%d)", v, u)
+						}
+						continue
+					}
+					if v-1 < len(combo) && combo[v-1] != nil && len(combo[v-1].Events) > 0 {
+						q := combo[v-1]
+						target := q.Events[len(q.Events)-1]
+						for _, e := range q.Events {
+							if e.Kind == "park" || e.Kind == "enq" {
+								target = e
+								break
+							}
+						}
+						assertf("(< %s gb%d)", ex.clk(target), u)
+					}
+				}
+			}
+		}
+	}
+	// ghostBefore(e, filter): some not-yet-chosen thread (accepted by filter) may act before event e
+	ghostBefore := func(e *Event, filter func(u int) bool) []string {
+		var alts []string
+		for _, u := range ghosts {
+			if filter == nil || filter(u) {
+				alts = append(alts, fmt.Sprintf("(< gb%d %s)", u, ex.clk(e)))
+			}
+		}
+		return alts
+	}
 	// path conditions and read-from
 	emit := func(t *Term) string {
 		n := r.Ref(t)
@@ -1612,6 +1825,9 @@ func (ex *Exec) checkCombo(combo []*ThreadPath, final *ThreadPath, finalPC []*Te
 	}
 	// blocked(thread) variables of the final phase
 	for name, v := range c.blockedV {
+		if partial != nil {
+			break
+		}
 		val := "false"
 		for t, p := range combo {
 			if p != nil && c.threads[t+1].Name == name && strings.HasPrefix(p.End, "blocked") {
@@ -1631,8 +1847,14 @@ func (ex *Exec) checkCombo(combo []*ThreadPath, final *ThreadPath, finalPC []*Te
 		if (e.Kind != "r" && e.Kind != "rmw") || e.RV == nil {
 			continue
 		}
-		rv := emit(e.RV)
 		var alts []string
+		if partial != nil {
+			if c.writers[e.Loc][nUser+1] {
+				continue // written by the final phase (not ordered by a ghost): unconstrained
+			}
+			alts = append(alts, ghostBefore(e, func(u int) bool { return c.writers[e.Loc][u] })...)
+		}
+		rv := emit(e.RV)
 		ws := writesByLoc[e.Loc]
 		// initial value
 		if init, ok := c.initTerm(ex, e.Loc, e.RV.Sort); ok {
@@ -1727,6 +1949,30 @@ func (ex *Exec) checkCombo(combo []*ThreadPath, final *ThreadPath, finalPC []*Te
 				ss = append(ss, e)
 			}
 		}
+		if partial != nil {
+			// notifications may come from threads not chosen yet (ghost alternative); the Signal
+			// encoding is not relaxed (no pruning there)
+			if len(ss) == 0 {
+				for _, e := range ws {
+					if e.Peer == nil {
+						for _, b := range bs {
+							assertf("%s", lt(b, e))
+						}
+						continue
+					}
+					alts := ghostBefore(e.Peer, nil)
+					for _, b := range bs {
+						alts = append(alts, fmt.Sprintf("(and %s %s)", lt(e, b), lt(b, e.Peer)))
+					}
+					if len(alts) == 0 {
+						assertf("false")
+					} else {
+						assertf("(or %s)", strings.Join(alts, " "))
+					}
+				}
+			}
+			continue
+		}
 		if len(ss) == 0 {
 			for _, e := range ws {
 				if e.Peer != nil { // woken: some broadcast after the ticket and before the wake-up
@@ -1805,6 +2051,8 @@ func (ex *Exec) checkCombo(combo []*ThreadPath, final *ThreadPath, finalPC []*Te
 			}
 		}
 		switch {
+		case (e.Kind == "ctxerr" && e.Aux == "cancelled" || e.Kind == "selwake" && e.Aux == "cancel") && partial != nil && ex.envUnchosen(partial):
+			// the cancelling environment thread is not chosen yet
 		case e.Kind == "ctxerr" && e.Aux == "cancelled", e.Kind == "selwake" && e.Aux == "cancel":
 			var alts []string
 			for _, k := range cancels {
@@ -1830,6 +2078,26 @@ func (ex *Exec) checkCombo(combo []*ThreadPath, final *ThreadPath, finalPC []*Te
 		switch e.Kind {
 		case "selwake":
 			park := e.Peer
+			if partial != nil {
+				// the enabling close / send may belong to a thread not chosen yet: ghost alternative
+				if e.Aux == "closed" || e.Aux == "recv" {
+					alts := ghostBefore(e, func(u int) bool { return u != e.Thread })
+					for _, k := range events {
+						if e.Aux == "closed" && k.Kind == "close" && k.Loc == e.Loc {
+							alts = append(alts, lt(k, e))
+						}
+						if e.Aux == "recv" && k.Kind == "send" && k.Aux == "ok" && k.Loc == e.Loc && k.Thread != e.Thread {
+							alts = append(alts, lt(k, e))
+						}
+					}
+					if len(alts) == 0 {
+						assertf("false")
+					} else {
+						assertf("(or %s)", strings.Join(alts, " "))
+					}
+				}
+				continue
+			}
 			switch e.Aux {
 			case "closed":
 				var alts []string
@@ -1870,6 +2138,9 @@ func (ex *Exec) checkCombo(combo []*ThreadPath, final *ThreadPath, finalPC []*Te
 	for _, s := range events {
 		if s.Kind != "send" {
 			continue
+		}
+		if partial != nil && (s.Aux == "ok" || s.Cap > 0) {
+			continue // the receiver / the earlier send may belong to a thread not chosen yet
 		}
 		// receivers parked on this channel
 		var parks []*Event
@@ -2001,15 +2272,36 @@ func (ex *Exec) checkCombo(combo []*ThreadPath, final *ThreadPath, finalPC []*Te
 		}
 	}
 	base := sb.String()
+	if partial != nil {
+		solver.Send("(reset)\n" + base)
+		t0 := time.Now()
+		ans := solver.CheckSat(ex.sess.oblTO)
+		if d := os.Getenv("VERIF_DUMP_COMBO"); d != "" && ans == "unsat" {
+			os.MkdirAll(d, 0755)
+			var desc strings.Builder
+			for _, p := range combo {
+				if p != nil {
+					fmt.Fprintf(&desc, "; path %v %s\n", p.Trace, p.End)
+				}
+			}
+			for _, e := range events {
+				fmt.Fprintf(&desc, "; c%d t%d %s %s [%s] @%s\n", e.ID, e.Thread, e.Kind, e.Loc, e.Aux, e.Pos)
+			}
+			os.WriteFile(fmt.Sprintf("%s/%s_partial_%v_n%d_%d.smt2", d, ex.h.Name, ex.ctl.trace, len(combo), comboNo), []byte(desc.String()+base+"(check-sat)\n"), 0644)
+		}
+		res.Queries++
+		res.PartialQueries++
+		res.SolverTime += time.Since(t0)
+		return ans != "unsat" // unknown / error: keep the prefix (no pruning)
+	}
 	// feasibility of the combination (vacuity witness) and the assertions
-	solver := ex.sess.solver
 	if d := os.Getenv("VERIF_DUMP_COMBO"); d != "" {
 		os.MkdirAll(d, 0755)
 		var desc strings.Builder
 		for _, e := range events {
 			fmt.Fprintf(&desc, "; c%d t%d %s %s [%s] @%s\n", e.ID, e.Thread, e.Kind, e.Loc, e.Aux, e.Pos)
 		}
-		os.WriteFile(fmt.Sprintf("%s/%s_combo%d.smt2", d, ex.h.Name, ex.sess.res.ConcCombos), []byte(desc.String()+base+"(check-sat)\n"), 0644)
+		os.WriteFile(fmt.Sprintf("%s/%s_combo%d.smt2", d, ex.h.Name, comboNo), []byte(desc.String()+base+"(check-sat)\n"), 0644)
 	}
 	solver.Send("(reset)\n" + base)
 	t0 := time.Now()
@@ -2017,13 +2309,24 @@ func (ex *Exec) checkCombo(combo []*ThreadPath, final *ThreadPath, finalPC []*Te
 	res.Queries++
 	res.SolverTime += time.Since(t0)
 	if ans == "unsat" {
-		return // this combination of control paths has no consistent schedule
+		return false // this combination of control paths has no consistent schedule
 	}
 	if ans != "sat" {
 		res.Inconclusive = append(res.Inconclusive, fmt.Sprintf("%s: feasibility of a thread-path combination: solver answered %s", ex.h.Name, firstLine(ans)))
-		return
+		return false
 	}
 	res.FeasibleCombos++
+	if os.Getenv("VERIF_DEBUG_PRUNE") != "" {
+		var tr []string
+		for _, p := range combo {
+			if p != nil {
+				tr = append(tr, fmt.Sprint(p.Trace)+p.End)
+			} else {
+				tr = append(tr, "-")
+			}
+		}
+		logf("    feasible combo final=%v %v\n", ex.ctl.trace, tr)
+	}
 	if ex.h.Opts["race"] == "1" {
 		ex.raceQueries(solver, r, events, paths)
 	}
@@ -2035,7 +2338,7 @@ func (ex *Exec) checkCombo(combo []*ThreadPath, final *ThreadPath, finalPC []*Te
 		}
 	}
 	for ai, a := range asserts {
-		st := ex.sess.stat(a.ID, a.Kind)
+		st := stat(a.ID, a.Kind)
 		st.Reached++
 		st.Posed++
 		st.Pos[a.Pos] = true
@@ -2119,6 +2422,7 @@ func (ex *Exec) checkCombo(combo []*ThreadPath, final *ThreadPath, finalPC []*Te
 			blockers += "(assert (not (and " + strings.Join(lits, " ") + ")))\n"
 		}
 	}
+	return true
 }
 
 // initTerm returns the initial (post-setup) value of a shared location as a term.
@@ -2535,3 +2839,17 @@ func (ex *Exec) pruneLog(e *Event, why string) {
 		logf("    prune: %s %s [%s] @%s thread %d: %s\n", e.Kind, e.Loc, e.Aux, e.Pos, e.Thread, why)
 	}
 }
+
+// envUnchosen: some environment (context-cancelling) thread is among the threads not chosen yet.
+func (ex *Exec) envUnchosen(partial map[int]bool) bool {
+	for u := range partial {
+		if u < len(ex.conc.threads) && ex.conc.threads[u] != nil && ex.conc.threads[u].EnvCancel != "" {
+			return true
+		}
+	}
+	return false
+}
+
+// maxFixPasses bounds the passes of the shared-location fix point (writers and reference candidates
+// per location); not converging within the bound is reported as unsupported (INCONCLUSIVE).
+const maxFixPasses = 12
